@@ -11,6 +11,7 @@ case "$MUT" in
   *.diff|*.patch) git -C "$WT" apply "$MUT" || { echo "patch does not apply"; exit 2; } ;;
   *.sh) (cd "$WT" && bash "$MUT") || { echo "mutation script failed"; exit 2; } ;;
 esac
+if git -C "$WT" diff --quiet; then echo "mutation did not change the tree"; exit 2; fi
 (cd "$WT" && GOFLAGS=-mod=mod GOPROXY=off go build ./... ) || { echo "mutant does not compile"; exit 2; }
 RD=$(mktemp -d /tmp/mutreplay-XXXXXX)
 VERIF_REPO="$WT" VERIF_NO_EVIDENCE=1 VERIF_REPLAY_DIR="$RD" /verif/check "$PROP" "$@" 2>&1 | grep -v "^    \|^  rule" | tail -4
